@@ -74,6 +74,8 @@ func genCfg() *hist.GenCfg {
 		Sources:   6,
 		Seps:      []string{".", ".", ".", "/", "::", "|"},
 		Drain:     4,
+		OverIdx:   1,
+		BadMerge:  2,
 	}
 }
 
@@ -585,6 +587,30 @@ func nilAddr(n *model.Node, sep string, salt int) (hist.Addr, bool) {
 	return hist.Addr{Name: model.JoinSegs(p, sep), Idx: -1}, true
 }
 
+// stored renders the stored trees of the root and of every pooled handle (hook snapshot with node identities).
+func stored(st *hist.State) []string {
+	out := make([]string, 0, 1+len(st.Pool))
+	out = append(out, ucfg.VerifFingerprint(st.Root.C, true))
+	for _, h := range st.Pool {
+		out = append(out, ucfg.VerifFingerprint(h.C, true))
+	}
+	return out
+}
+
+// unchanged: the stored trees before and after a rejected operation (which pools nothing) are the same.
+func unchanged(before, after []string) error {
+	for k := range before {
+		if k < len(after) && before[k] != after[k] {
+			what := "the root"
+			if k > 0 {
+				what = fmt.Sprintf("pooled handle %d", k-1)
+			}
+			return fmt.Errorf("the rejected operation changed the stored tree of %s\n before: %s\n after:  %s", what, before[k], after[k])
+		}
+	}
+	return nil
+}
+
 func trace(c Case, upto int) string {
 	var b strings.Builder
 	b.WriteString("\n history:")
@@ -619,6 +645,7 @@ func runCase(c Case, r *runlog.R) error {
 	}
 	nt, afterCfgMerge, emptied := false, false, false
 	for i, op := range c.Ops {
+		before := stored(st)
 		info, err := st.Apply(op)
 		if err != nil {
 			return fmt.Errorf("step %d: %v%s", i, err, trace(c, i))
@@ -628,9 +655,20 @@ func runCase(c Case, r *runlog.R) error {
 			r.Class("skipped: " + info.Skipped)
 		case info.Rejected:
 			r.Class("rejected " + op.Kind)
+			r.Class("rejected " + op.Kind + ": " + info.RejectWhy)
+			r.ClassIf(info.MissingBelow, "rejected write at an address whose intermediate nodes do not exist")
+			r.ClassIf(info.MissingBelow && info.ViaHandle, "rejected write at an address whose intermediate nodes do not exist, through a handle")
+			// A rejected operation changes nothing: not the tree of its receiver, not that of any other
+			// config of the case. The stored trees (hook snapshot: every node with its identity, name,
+			// payload; empty containers and nil entries are nodes like any other) must be what they were.
+			if err := unchanged(before, stored(st)); err != nil {
+				return fmt.Errorf("after step %d (%s), which was rejected (%s): %v%s", i, op, info.RejectWhy, err, trace(c, i))
+			}
 		default:
 			r.Class("op " + op.Kind)
 		}
+		r.ClassIf(info.MaxIdxOpt && info.Skipped == "", op.Kind+" with a MaxIdx option")
+		r.ClassIf(info.AtMax, "accepted write at the maximum index")
 		r.ClassIf(info.ViaHandle && info.Wrote && !info.Detached, "write through a live handle")
 		r.ClassIf(info.ViaHandle && info.Wrote && info.Detached, "write through a detached handle")
 		r.ClassIf(info.Overlap, "overwrite or removal of an earlier write")
